@@ -30,7 +30,7 @@ CONSTANT Size          \* slots of the transport queue
 \* addresses that reach the http transport and carry a url the client can contact
 Reachable == {"url", "physical", "physical-headers"}
 \* addresses that reach the http transport but cannot be contacted: the hand-off must fail without any request
-Unreachable == {"data-not-object", "data-null", "url-empty", "url-invalid", "scheme-ftp", "refused"}
+Unreachable == {"data-not-object", "data-null", "url-absent", "url-empty", "url-invalid", "scheme-ftp", "refused"}
 \* addresses the sender itself cannot resolve: the hand-off fails before any transport sees it
 Unresolvable == {"recv-null", "recv-number", "scheme-unknown", "plugin-unknown"}
 Addrs == Reachable \cup Unreachable \cup Unresolvable
